@@ -411,6 +411,18 @@ func (n *Net) Do(req *http.Request) (*http.Response, error) {
 	}
 	e := n.newExchange(c, req)
 	c.setEx(e)
+	if c.K.HTTP2 {
+		// net/http's HTTP/2 transport encodes the request headers on a goroutine
+		// of its own, which may still be at it when RoundTrip has already
+		// returned because the context ended ("RoundTrip may read fields of the
+		// request in a separate goroutine"). The stub reads the header map once
+		// more at a later step, for nothing but that: whoever writes to the map
+		// in the meantime races with the transport.
+		go func() {
+			n.S.GateOpt(c.ID+"/hdr.late", nil, core.FlagDaemon)
+			touchHeader(req.Header)
+		}()
+	}
 	n.S.Go(c.ID+"/handler", func(*core.Task) { e.runHandler() })
 	n.S.Go(c.ID+"/pump", func(*core.Task) { e.runPump() })
 	go e.runWatcher()
@@ -1116,6 +1128,18 @@ func validHeaders(h http.Header) error {
 // addSanitized mirrors what net/http's servers do to response header fields:
 // invalid names are dropped; HTTP/1.1 replaces CR/LF by spaces and trims,
 // HTTP/2 drops invalid values.
+// touchHeader reads every entry of a header map, as an encoder would.
+func touchHeader(h http.Header) int {
+	n := 0
+	for k, vs := range h {
+		n += len(k)
+		for _, v := range vs {
+			n += len(v)
+		}
+	}
+	return n
+}
+
 func sortedKeys(h http.Header) []string {
 	keys := make([]string, 0, len(h))
 	for k := range h {
